@@ -1974,6 +1974,10 @@ int EGLPNUM_TYPENAME_ILLlib_chgsense (
 			ILL_CLEANUP;
 		}
 		k = A->matbeg[j];
+		/* a new sense starts without a range (a ranged row is an equation until
+		 * EGLPNUM_TYPENAME_QSchange_range is called, other rows have no range) */
+		if (qslp->rangeval)
+			EGLPNUM_TYPENAME_EGlpNumZero (qslp->rangeval[rowlist[i]]);
 		switch (sense[i])
 		{
 		case 'R':									/* Range constraint, we will set its upper bound
